@@ -20,9 +20,41 @@ RUN_CAP_S = 900
 
 
 def gen_plan(rng, tier: str, idx: int) -> dict:
-    if rng.random() < 0.5:
-        return gen_probe(rng, tier)
-    return gen_rw(rng, tier)
+    plan = gen_probe(rng, tier) if rng.random() < 0.5 else gen_rw(rng, tier)
+    # every 6th run is repeated in a fresh interpreter under another string-hash seed
+    # (reproducible = same results in another process, not only within this one)
+    plan["xproc"] = rng.randrange(1, 10**6) if idx % 6 == 0 else None
+    return plan
+
+
+def other_process_digest(plan: dict) -> str:
+    """Event-log digest of the same plan executed in a fresh interpreter with PYTHONHASHSEED =
+    plan['xproc'] (the workers of this batch all run under one hash seed)."""
+    import json
+    import os
+    import subprocess
+    import sys
+
+    import liesel
+
+    verif = os.path.dirname(os.path.dirname(os.path.dirname(os.path.abspath(__file__))))
+    src = os.path.dirname(os.path.dirname(os.path.abspath(liesel.__file__)))
+    child = dict(plan, xproc=None)
+    code = (
+        "import sys, json\n"
+        f"sys.path.insert(0, {verif!r})\n"
+        "from simkit import worker\n"
+        f"worker.init_worker({src!r}, {verif!r})\n"
+        "from simkit.props import C10\n"
+        "r = C10.execute(json.load(sys.stdin))\n"
+        "print('XPROC-DIGEST', r['digest'], len(r['violations']))\n"
+    )
+    env = dict(os.environ, PYTHONHASHSEED=str(plan["xproc"]))
+    r = subprocess.run([sys.executable, "-W", "ignore", "-c", code], input=json.dumps(child), capture_output=True, text=True, env=env, timeout=RUN_CAP_S - 60)
+    for line in r.stdout.splitlines():
+        if line.startswith("XPROC-DIGEST"):
+            return line.split()[1]
+    raise RuntimeError(f"child interpreter gave no digest: {r.stdout[-500:]} {r.stderr[-1500:]}")
 
 
 def gen_probe(rng, tier):
@@ -328,6 +360,11 @@ def execute(plan: dict) -> dict:
     else:
         sim = exec_rw(plan, V, log, counters)
         sig = sha(canon([plan["chains"], plan["dim"], plan["multi"], plan["jitter"], plan["jitter_keys"], plan["epochs"], plan["perturb"] is not None, plan["seed_as_key"], plan["kernel_split"]]))[:16]
+    if plan.get("xproc") and not V.items:
+        mine, other = log.digest(), other_process_digest(plan)
+        counters["probe.repeated_in_another_interpreter"] = 1
+        if mine != other:
+            V.add("reproducible", "another-interpreter-process", f"the same seed, model, kernels and schedule give event-log digest {mine} here and {other} in a fresh interpreter with PYTHONHASHSEED={plan['xproc']}")
     return {
         "violations": V.items,
         "digest": log.digest(),
